@@ -197,6 +197,7 @@ class Evaluator(object):
         self.loops = {}                     # function key -> list of LoopSummary
         self.calls = []                     # (caller qualname, callee qualname, bound args dict, call node)
         self._const_cache = {}
+        self.dates = {}                     # ordinal -> (y, m, d) for every date literal met
         self._stack = []
         self.unknown_count = 0
         self.assumed = []
@@ -895,6 +896,8 @@ class Evaluator(object):
                 return self.mat_transpose(o, node)
             return BoundExt(o, attr)
         if isinstance(o, Rat):
+            if attr == 'days':
+                return o          # timedelta.days of a difference of date ordinals
             a = _single_atom(o)
             if a is not None and a.kind == 'sym':
                 return Rat.sym('%s.%s' % (a.name, attr))
@@ -1229,7 +1232,15 @@ class Evaluator(object):
         if name in ('datetime.date', 'datetime.datetime.date'):
             ks = [_const_int(x) for x in a]
             if len(ks) == 3 and all(k is not None for k in ks):
-                return DateV(*ks)
+                # dates are modelled by their proleptic ordinal (a difference of dates is a number of days)
+                try:
+                    import datetime as _dt
+                    o = _dt.date(*ks).toordinal()
+                except ValueError:
+                    self.diag('shape', node, 'invalid calendar date %s' % (ks,))
+                    return self.unknown('invalid date', node)
+                self.dates[o] = tuple(ks)
+                return C(o)
         if name == 'warnings.warn':
             return NONE
         if name in ('decimal.Decimal', 'fractions.Fraction') and len(a) == 1:
